@@ -246,10 +246,13 @@ fn check_table(c: &TableCase, st: &mut Stats) -> Outcome {
                 None
             } else if is_accept {
                 Some(10)
-            } else if sp.len() == 1 {
-                sp.iter().next().copied()
             } else {
-                None
+                // "since the same terminal can be used in many productions we will take the
+                // maximum for S/R resolution" (LRState::max_prior_for_term)
+                if sp.len() > 1 {
+                    st.class("cell-shift-priority-is-max-of-several");
+                }
+                sp.iter().max().copied()
             };
             // pairwise beats relation
             let cv: Vec<Cand> = cands.iter().cloned().collect();
@@ -296,7 +299,7 @@ fn check_table(c: &TableCase, st: &mut Stats) -> Outcome {
                 }
             } else {
                 // weak, order independent oracle
-                st.class("cell-multiway-or-mixed-shift-priority");
+                st.class("cell-multiway");
                 if decidable {
                     for (i, cnd) in cv.iter().enumerate() {
                         if beaten_by[i].is_empty() && !got.contains(cnd) {
@@ -563,11 +566,14 @@ impl Prop for C05 {
          / nops / nopse on productions and rules, associativity on terminals, x {LR,GLR} x \
          prefer_shifts x prefer_shifts_over_empty x {LALR,LALR_PAGER}; two real dumps of the same \
          rules: raw (meta stripped, nothing resolved) and resolved; for every cell with competing \
-         actions: two-candidate cells with a single shift priority are compared with the documented \
+         actions: two-candidate cells are compared with the documented \
          decision function (priority, terminal-over-production associativity, prefer-shift flags \
          unless nops/nopse, LR non-empty-over-empty for R/R); other cells with an order independent \
          predicate (kept subset of candidates, unbeaten candidates kept, no survivor next to its \
-         beater, never empty); compiler abort = failure. part 2: expression grammars with a random \
+         beater, never empty); the shift priority of a cell is the maximum priority of the productions \
+         that have the terminal after the dot in that state; the real process_grammar entry point \
+         must report the conflicts error for LR exactly when a cell keeps several actions and \
+         generate a parser otherwise (GLR: always); compiler abort = failure. part 2: expression grammars with a random \
          precedence table (associativity on productions or on operator terminals): tree of the real \
          LR parser == tree of a precedence-climbing parser. non-trivial = grammar with a resolved \
          cell decided by associativity or a prefer-shift flag; expression with >= 3 operators from \
@@ -577,7 +583,7 @@ impl Prop for C05 {
     fn assumptions(&self) -> Vec<String> {
         vec![
             "effective production meta-data computed from the spec by the documented inheritance rule (C09 checks the builder's inheritance separately); rule- and production-level associativity are never combined".into(),
-            "shift priority = priority of the productions shifting the terminal in that state; cells where they differ use only the weak predicate".into(),
+            "shift priority = maximum priority of the productions shifting the terminal in that state (doc comment of LRState::max_prior_for_term, property anchor)".into(),
         ]
     }
     fn describe(&self, case: &Case) -> Value {
